@@ -19,6 +19,8 @@ def c01(run):
     run.trace("stream", Q(run, 2, 30), seed_off=100)
     run.trace("prim-sweep", Q(run, 1, 2), seed_off=200, chunk=600)
     run.trace("roundtrip-canon", Q(run, 1, 20), seed_off=600, poison=2, small=True)
+    # discriminators registered at run time (before the first look-up of the process, a new key and an overridden key per table)
+    run.trace("tables-dynamic", Q(run, 2, 20), seed_off=700, patch_tables=True)
     run.assumptions += ["canonical domain decided by Canonical(T, v) in Codec.tla", "self-computed fields compared with the object the encoder left behind (their correctness is C04/C05)"]
     return run.finish(RULE_TRACE)
 
@@ -289,6 +291,11 @@ def c19(run):
     run.lin_stress(Q(run, 100, 600), 8, 3, names=3, seed_off=1)
     # one hot name: a writer registering instance 1 / removing / registering instance 2 ..., five readers looking it up in every round
     run.lin_stress(Q(run, 400, 3000), 6, 8, names=1, seed_off=3, profile="hot")
+    # one name, no Remove at all: the writer registers instance 1 / clears / registers instance 2 / clears ..., five readers
+    run.lin_stress(Q(run, 500, 3000), 6, 8, names=1, seed_off=5, profile="clearhot")
+    # four names registered, then ONE Clear while five goroutines look all names up in a burst, each in its own order (a Clear that is not
+    # atomic over the names shows as a miss followed by a hit)
+    run.lin_stress(Q(run, 300, 2000), 6, 9, names=4, seed_off=7, profile="walk")
     if run.tier == "thorough":
         run.lin_stress(300, 12, 3, names=4, seed_off=2)
     run.assumptions += ["interleavings on the real code are exhaustive only for the gated schedules TLC generates; the stress part is probabilistic",
